@@ -32,6 +32,11 @@ func partRaceStorms(c *check.Ctx, a *acc) {
 	parallel(execs, 6, func(i int) {
 		frames := []time.Duration{time.Millisecond, 5 * time.Millisecond, 15 * time.Millisecond}
 		opts := sut.LabOpts{Frame: frames[i%3], Race: true, Name: "race"}
+		if i%2 == 0 {
+			// the periodic workers of a connection run during the storm as well: sync
+			// clock (production 5 s) and the log summary of the logging decorator (1 min)
+			opts.Sync, opts.LogSum = 20*time.Millisecond, 3*time.Millisecond
+		}
 		if i%2 == 1 {
 			opts.RT = "jitter"
 		}
